@@ -1607,7 +1607,43 @@ func (fb *FB) symRange(k interface{}) (int64, int64) {
 
 // prove tries to establish t >= 0 from the facts (each fact >= 0) and symbol ranges.
 func (fb *FB) prove(t Lin, facts []Lin, depth int) bool {
-	return fb.prove2(t, fb.withIntrinsic(t, facts), depth, 2)
+	if fb.prove2(t, fb.withIntrinsic(t, facts), depth, 2) {
+		return true
+	}
+	return fb.proveMinMaxCases(t, facts, depth, 0)
+}
+
+// proveMinMaxCases: m = min(a, b, ..) equals one of its arguments, so c*m + rest >= 0 with c > 0 holds if it holds for every
+// argument put in m's place (symmetrically max with c < 0; the other signs are covered by the intrinsic facts m <= a_i / m >= a_i).
+func (fb *FB) proveMinMaxCases(t Lin, facts []Lin, depth, level int) bool {
+	if level > 1 {
+		return false
+	}
+	for k, coef := range t.T {
+		call, isCall := k.(*ssa.Call)
+		if !isCall {
+			continue
+		}
+		b, isB := call.Call.Value.(*ssa.Builtin)
+		if !isB || !isIntType(call.Type()) || len(call.Call.Args) == 0 {
+			continue
+		}
+		if !((b.Name() == "min" && coef > 0) || (b.Name() == "max" && coef < 0)) {
+			continue
+		}
+		all := true
+		for _, a := range call.Call.Args {
+			t2 := t.add(linSym(k), -coef).add(fb.lin(a), coef)
+			if !fb.prove2(t2, fb.withIntrinsic(t2, facts), depth, 2) && !fb.proveMinMaxCases(t2, facts, depth, level+1) {
+				all = false
+				break
+			}
+		}
+		if all {
+			return true
+		}
+	}
+	return false
 }
 
 // withIntrinsic adds facts that hold by the meaning of a symbol: for q = n / k (k a positive constant, n >= 0):
